@@ -97,7 +97,7 @@ inductive Err where
   | unknownCommand | unknownCommandRet
   | badLValue | badCase | badParam
   | writeOnly | readOnly | notAllowed
-  | duplicateLabel | unknownNode
+  | duplicateLabel | unknownNode | tooManyParameters
   | ub (u : Ub)
   deriving Repr, DecidableEq
 
@@ -117,6 +117,10 @@ def unle : List Nat → Nat
 
 /-- `int8_t` conversion of `opcode_info_t::VarStackOffset` -/
 def toInt8 (i : Int) : Int := (i + 128) % 256 - 128
+
+/-- conversion to `int16_t` (`m_iVarStackOffset` and the two maxima are 16-bit members; `+=` computes in `int`
+    and narrows) -/
+def toInt16 (i : Int) : Int := (i + 32768) % 65536 - 32768
 
 structure PrevOp where
   op : Nat
@@ -388,14 +392,14 @@ def St.accumulate (s : St) (op : Nat) (off : Int) : St :=
 def St.absorb (s : St) : R St := do
   let p ← s.prevOp
   let len ← match opLen? p.op with | some l => .ok l | none => .error (.ub .opcodeTable)
-  let s ← { s with varStack := s.varStack - p.off }.moveBack len
+  let s ← { s with varStack := toInt16 (s.varStack - p.off) }.moveBack len
   let pp := if s.prevPos = 0 then 100 else s.prevPos
   .ok { s with prevPos := pp - 1 }
 
 /-- the stack bookkeeping of `EmitOpcodeWithStack` (`m_iVarStackOffset` and the two maxima) -/
 def St.trackStack (s : St) (ext : Bool) (off : Int) : St :=
   let s := if ext then { s with maxExt := if s.varStack > s.maxExt then s.varStack else s.maxExt } else s
-  let s := { s with varStack := s.varStack + off }
+  let s := { s with varStack := toInt16 (s.varStack + off) }
   if !ext then { s with maxInt := if s.varStack > s.maxInt then s.varStack else s.maxInt } else s
 
 /-- `EmitOpcodeWithStack` -/
@@ -597,6 +601,10 @@ def St.emitLabelParameterList (s : St) (hasPs : Bool) (ps : Nodes) : R St := do
     s.emitOp OP_RESTORE_STACK_POS
   else .ok s
 
+/-- `CheckOperandCount(iCount, iMaxCount)` -/
+def checkCount (n max : Nat) : R Unit :=
+  if n > max then .error .tooManyParameters else .ok ()
+
 /-- the tail of `EmitCommandScript` / `EmitCommandMethod` / `EmitMethodExpression` -/
 def St.emitExec (s : St) (op0 opCount : Nat) (n : Nat) (off : Int) (ev : Nat) : R St := do
   let s ← if n > 5 then do
@@ -728,6 +736,7 @@ def emit : Node → St → R St
     if ev = 0 then throw (.unknownCommand : Err)
     let s ← if hasPs then emitList ps s else .ok s
     let n := if hasPs then ps.length else 0
+    checkCount n parmNumMax
     let s ← emit l s
     s.emitExec OP_EXEC_CMD_METHOD0 OP_EXEC_CMD_METHOD_COUNT1 n (-(n : Int) - 1) ev
   | .mcmdx ev l hasPs ps, s => do
@@ -736,12 +745,15 @@ def emit : Node → St → R St
     let s ← if hasPs then emitList ps s else .ok s
     let n := if hasPs then ps.length else 0
     let s ← emit l s
+    -- EmitMethodExpression
+    checkCount n parmNumMax
     s.emitExec OP_EXEC_METHOD0 OP_EXEC_METHOD_COUNT1 n (-(n : Int)) ev
   | .cmd ev hasPs ps, s => do
     -- EmitCommandScript
     if ev = 0 then throw (.unknownCommand : Err)
     let s ← if hasPs then emitList ps s else .ok s
     let n := if hasPs then ps.length else 0
+    checkCount n parmNumMax
     s.emitExec OP_EXEC_CMD0 OP_EXEC_CMD_COUNT1 n (-(n : Int)) ev
   | .cmdx ev hasPs ps, s => do
     -- EmitCommandScriptRet
@@ -749,6 +761,8 @@ def emit : Node → St → R St
     let s ← if hasPs then emitList ps s else .ok s
     let n := if hasPs then ps.length else 0
     let s ← s.emitOp OP_STORE_LOCAL
+    -- EmitMethodExpression
+    checkCount n parmNumMax
     s.emitExec OP_EXEC_METHOD0 OP_EXEC_METHOD_COUNT1 n (-(n : Int)) ev
   | .field idx ev rd _ l, s => do
     -- EmitField
@@ -806,12 +820,14 @@ def emit : Node → St → R St
     let s ← emit a s
     let s ← emitList xs s
     let n := xs.length + 1
+    checkCount n arrayParmNumMax
     let s ← s.emitOpWith OP_LOAD_CONST_ARRAY1 (1 - (n : Int))
     s.write (le 2 n)
   | .marr xs, s => do
     -- EmitMakeArray
     let s ← emitList xs s
     let n := xs.length
+    checkCount n arrayParmNumMax
     let s ← s.emitOpWith OP_LOAD_CONST_ARRAY1 (1 - (n : Int))
     s.write (le 2 n)
   | .try_ b c, s => do
